@@ -6,6 +6,7 @@ import (
 	"io"
 	"net"
 	"sync"
+	"sync/atomic"
 	"time"
 
 	"github.com/cenkalti/backoff"
@@ -54,6 +55,10 @@ func newUDFNode(et *ExecutingTask, n *pipeline.UDFNode, d NodeDiagnostic) (*UDFN
 }
 
 var errNodeAborted = errors.New("node aborted")
+
+// errUDFNotOpen is returned for a request made before Open has created the server.
+// The task snapshotter and a stop of the task run concurrently with the start of the UDF.
+var errUDFNotOpen = errors.New("udf is not open")
 
 func (n *UDFNode) stopUDF() {
 	n.mu.Lock()
@@ -166,7 +171,8 @@ type UDFProcess struct {
 	taskName string
 	nodeName string
 
-	server    *udf.Server
+	// Set by Open, Snapshot and Abort may be called before that.
+	server    atomic.Pointer[udf.Server]
 	commander command.Commander
 	cmdSpec   command.Spec
 	cmd       command.Command
@@ -233,7 +239,7 @@ func (p *UDFProcess) Open() error {
 
 	outBuf := bufio.NewReader(stdout)
 
-	p.server = udf.NewServer(
+	server := udf.NewServer(
 		p.taskName,
 		p.nodeName,
 		outBuf,
@@ -243,9 +249,11 @@ func (p *UDFProcess) Open() error {
 		p.abortCallback,
 		cmd.Kill,
 	)
-	if err := p.server.Start(); err != nil {
+	if err := server.Start(); err != nil {
 		return err
 	}
+	// Publish the server only once it is started: Abort must not meet a server without its channels.
+	p.server.Store(server)
 
 	p.logStdErrGroup.Add(1)
 	go p.logStdErr()
@@ -255,11 +263,11 @@ func (p *UDFProcess) Open() error {
 	go func() {
 		// First wait for the pipe read writes to finish
 		p.logStdErrGroup.Wait()
-		p.server.WaitIO()
+		server.WaitIO()
 		err := cmd.Wait()
 		if err != nil {
 			err = fmt.Errorf("process exited unexpectedly: %v", err)
-			defer p.server.Abort(err)
+			defer server.Abort(err)
 		}
 		p.processGroup.Done()
 	}()
@@ -274,7 +282,7 @@ func (p *UDFProcess) Open() error {
 func (p *UDFProcess) Close() error {
 	p.mu.Lock()
 	defer p.mu.Unlock()
-	err := p.server.Stop()
+	err := p.server.Load().Stop()
 	p.processGroup.Wait()
 	return err
 }
@@ -288,19 +296,30 @@ func (p *UDFProcess) logStdErr() {
 	}
 }
 
-func (p *UDFProcess) Abort(err error)                    { p.server.Abort(err) }
-func (p *UDFProcess) Init(options []*agent.Option) error { return p.server.Init(options) }
-func (p *UDFProcess) Snapshot() ([]byte, error)          { return p.server.Snapshot() }
-func (p *UDFProcess) Restore(snapshot []byte) error      { return p.server.Restore(snapshot) }
-func (p *UDFProcess) In() chan<- edge.Message            { return p.server.In() }
-func (p *UDFProcess) Out() <-chan edge.Message           { return p.server.Out() }
-func (p *UDFProcess) Info() (udf.Info, error)            { return p.server.Info() }
+func (p *UDFProcess) Abort(err error) {
+	if server := p.server.Load(); server != nil {
+		server.Abort(err)
+	}
+}
+func (p *UDFProcess) Snapshot() ([]byte, error) {
+	server := p.server.Load()
+	if server == nil {
+		return nil, errUDFNotOpen
+	}
+	return server.Snapshot()
+}
+func (p *UDFProcess) Init(options []*agent.Option) error { return p.server.Load().Init(options) }
+func (p *UDFProcess) Restore(snapshot []byte) error      { return p.server.Load().Restore(snapshot) }
+func (p *UDFProcess) In() chan<- edge.Message            { return p.server.Load().In() }
+func (p *UDFProcess) Out() <-chan edge.Message           { return p.server.Load().Out() }
+func (p *UDFProcess) Info() (udf.Info, error)            { return p.server.Load().Info() }
 
 type UDFSocket struct {
 	taskName string
 	nodeName string
 
-	server *udf.Server
+	// Set by Open, Snapshot and Abort may be called before that.
+	server atomic.Pointer[udf.Server]
 	socket Socket
 
 	diag          udf.Diagnostic
@@ -341,7 +360,7 @@ func (s *UDFSocket) Open() error {
 	out := s.socket.Out()
 	outBuf := bufio.NewReader(out)
 
-	s.server = udf.NewServer(
+	server := udf.NewServer(
 		s.taskName,
 		s.nodeName,
 		outBuf,
@@ -351,11 +370,16 @@ func (s *UDFSocket) Open() error {
 		s.abortCallback,
 		func() { s.socket.Close() },
 	)
-	return s.server.Start()
+	if err := server.Start(); err != nil {
+		return err
+	}
+	// Publish the server only once it is started: Abort must not meet a server without its channels.
+	s.server.Store(server)
+	return nil
 }
 
 func (s *UDFSocket) Close() error {
-	if err := s.server.Stop(); err != nil {
+	if err := s.server.Load().Stop(); err != nil {
 		// Always close the socket
 		s.socket.Close()
 		return errors.Wrap(err, "stopping UDF server")
@@ -366,13 +390,23 @@ func (s *UDFSocket) Close() error {
 	return nil
 }
 
-func (s *UDFSocket) Abort(err error)                    { s.server.Abort(err) }
-func (s *UDFSocket) Init(options []*agent.Option) error { return s.server.Init(options) }
-func (s *UDFSocket) Snapshot() ([]byte, error)          { return s.server.Snapshot() }
-func (s *UDFSocket) Restore(snapshot []byte) error      { return s.server.Restore(snapshot) }
-func (s *UDFSocket) In() chan<- edge.Message            { return s.server.In() }
-func (s *UDFSocket) Out() <-chan edge.Message           { return s.server.Out() }
-func (s *UDFSocket) Info() (udf.Info, error)            { return s.server.Info() }
+func (s *UDFSocket) Abort(err error) {
+	if server := s.server.Load(); server != nil {
+		server.Abort(err)
+	}
+}
+func (s *UDFSocket) Snapshot() ([]byte, error) {
+	server := s.server.Load()
+	if server == nil {
+		return nil, errUDFNotOpen
+	}
+	return server.Snapshot()
+}
+func (s *UDFSocket) Init(options []*agent.Option) error { return s.server.Load().Init(options) }
+func (s *UDFSocket) Restore(snapshot []byte) error      { return s.server.Load().Restore(snapshot) }
+func (s *UDFSocket) In() chan<- edge.Message            { return s.server.Load().In() }
+func (s *UDFSocket) Out() <-chan edge.Message           { return s.server.Load().Out() }
+func (s *UDFSocket) Info() (udf.Info, error)            { return s.server.Load().Info() }
 
 type socket struct {
 	path string
